@@ -209,6 +209,8 @@ PROPS['C02'] = floor_prop(
     ('rec device_failure', 'rec received_part'), 'non-trivial = at least one part was received; distinct by scenario text',
     # sys / floorl: devices created and wired while the simulation runs (C02W covers them)
     families=[('floor', 100, 2000), ('floorc', 50, 1000), ('floors', 150, 3000), ('sys', 60, 1000), ('floorl', 40, 800), ('floorq', 40, 800), ('floorb', 60, 1000)])
+import c02 as _c02
+PROPS['C02']['extra'] = _c02.odd_budgets
 PROPS['C03'] = floor_prop(
     'C03', ['SimProc.Props.C03', 'SimProc.Props.C03W'], ['SimProc/Props/C03.lean', 'SimProc/Props/C03W.lean'],
     {'ev': None, 'now': None, 'ran': None, 'd': _c.fields('part', 'out', 'buf', 'wds', 'blk', 'down', 'wres', 'lvl')},
@@ -234,7 +236,7 @@ PROPS['C08'] = floor_prop(
     'C08', ['SimProc.Props.C08', 'SimProc.Props.C08W', 'SimProc.Props.C08S'], ['SimProc/Props/C08.lean', 'SimProc/Props/C08W.lean', 'SimProc/Props/C08S.lean'],
     {'p': _c.fields('hist', 'stack', 'kids'), 'd': _c.fields('coll', 'blk'), 'rec': _c.only(('received_part',))},
     ('rec received_part',), 'non-trivial = a part was handed over',
-    families=[('floor', 100, 2000), ('floorc', 50, 1000), ('floors', 100, 2000), ('floorg', 80, 1500), ('floorb', 40, 800), ('floori', 80, 1500), ('floorn', 0, 0)])
+    families=[('floor', 100, 2000), ('floorc', 50, 1000), ('floors', 100, 2000), ('floorg', 80, 1500), ('floorb', 40, 800), ('floori', 80, 1500), ('floorw', 40, 800), ('floorn', 0, 0)])
 PROPS['C11'] = floor_prop(
     'C11', ['SimProc.Props.C11', 'SimProc.Props.C11W'], ['SimProc/Props/C11.lean', 'SimProc/Props/C11W.lean'],
     {'d': _c.fields('part', 'resv', 'wres', 'down'), 'r': None, 'rec': _c.only(('resource_update',))},
